@@ -43,3 +43,8 @@ def legs(xs: list[Animal]) -> int:
     for x in xs:
         total += x.legs
     return total
+
+
+def sounds(a: Animal) -> set[str]:
+    """A set of strings: its iteration order depends on the string hashes."""
+    return {a.speak(), "zoo", "pen", "cage"}
